@@ -516,6 +516,14 @@ def build(tier, mutate=None):
     units.append(Unit("coap-read/read_characteristics", cw, rw, bounds={"items": 3, "readable": "every subset"}, regions=["coap-read-value", "coap-read-refused"]))
     units.append(Unit("coap-read/_read_characteristics_exit", cr, rr, bounds={"items": 3, "result": "empty body or each PDUStatus error"}, regions=["coap-error"]))
     units.append(Unit("coap-write/put_characteristics", cp, rp, bounds={"items": 3, "result": "ok or each PDUStatus error"}, regions=["rejected", "accepted-readable"]))
+    if tier != "canary":
+        # which answer of a CoAP batch reply belongs to which request: the PDU codec under the read/write paths (units of C17)
+        from . import c17
+        C17, R17 = c17.copies(mutate), c17.reals()
+        units.append(Unit("coap-batch/decode_all_pdus/k=2 (unit of C17)", c17.coap_decode(C17, 2, 300, None), c17.coap_decode(R17, 2, 300, None),
+                          bounds={"items": 2, "control/tid": "0..255", "status": "0..6", "body_len": "0..300"}, regions=["item-ok", "item-error"]))
+        units.append(Unit("coap-batch/pipeline/write_characteristics/k=3 (unit of C17)", c17.coap_pipeline(C17, "write_characteristics", 3), c17.coap_pipeline(R17, "write_characteristics", 3),
+                          bounds={"items": 3, "per-item outcome": c17.ITEM_OUTCOMES}, regions=["item-ok", "item-error"]))
     units.append(Unit("ble-write/put_characteristics", ble_put(C), ble_put(R), split=True,
                       bounds={"writes": 3, "permissions": list(BLE_PERMS), "outcome per write": "ok or PDU status 2 / 6"},
                       regions=["rejected", "accepted-readable", "not-writable"]))
